@@ -53,7 +53,11 @@ def target_and_circuit(cfg, rule, op_builder, symbolic=True):
         for o in mapped:
             M = np.asarray(qp.matrix(o, wire_order=wire_order), dtype=complex) @ M
         T = np.asarray(qp.matrix(op, wire_order=twires) if twires else qp.matrix(op), dtype=complex)
+    valid = getattr(cfg, "valid_inputs", None)
     if nw == 0:
+        if valid is not None:
+            # operator specified only on part of its input space (e.g. TemporaryAND: target in |0>): compare on that domain
+            return M[:, valid], T[:, valid], info
         return M, T, info
     for lab, state, restored in info:
         if state not in ("zero", "ZERO", "AllocateState.ZERO") and "zero" not in state.lower():
@@ -210,7 +214,9 @@ def build(tier, seed):
     plan.trusted_base = ["vf/symx exact ring + Sym scalar", "circuit semantics: ordered product of gate matrices embedded on "
                          "their wires (textbook tensor embedding, vf/symx/rules.py:apply_small)",
                          "numpy/autoray structural operations on object arrays"]
-    plan.assumptions = ["A-float-as-real", "A-float-constants", "numpy interface path",
+    plan.assumptions = ["TemporaryAND (Elbow) and its adjoint are compared on their documented input domain only (target wire in |0>, "
+                        "resp. holding the AND of the controls)",
+                        "A-float-as-real", "A-float-constants", "numpy interface path",
                         "is_applicable evaluated on a float twin (abstractification discards parameter values)"]
     def mk(cfg, rule, seed, params):
         if getattr(cfg, "numeric", False) and "SemiAdder" in cfg.opname:
